@@ -85,6 +85,10 @@ func callNativeFn(fr *frame, fn *ssa.Function, args []value) value {
 		if anySym {
 			x.abandon("symbolic argument reaches un-modelled native function " + name)
 		}
+		if m := symModels[name]; m != nil && !convertible(fr, nf, args) {
+			// aggregates the host function cannot take (maps, structs with symbolic leaves): the model
+			return m(fr, args)
+		}
 		return reflectCall(fr, name, nf, args, fn.Signature)
 	}
 	if m := symModels[name]; m != nil {
@@ -92,6 +96,25 @@ func callNativeFn(fr *frame, fn *ssa.Function, args []value) value {
 	}
 	x.abandon("call to un-modelled external function " + name)
 	return nil
+}
+
+// convertible: every argument can be handed to the host function.
+func convertible(fr *frame, nf interface{}, args []value) bool {
+	ft := reflect.ValueOf(nf).Type()
+	for i, a := range args {
+		var pt reflect.Type
+		if ft.IsVariadic() && i >= ft.NumIn()-1 {
+			pt = ft.In(ft.NumIn() - 1)
+		} else if i < ft.NumIn() {
+			pt = ft.In(i)
+		} else {
+			return false
+		}
+		if _, ok := toGo(fr, a, pt); !ok {
+			return false
+		}
+	}
+	return true
 }
 
 var errorIface = reflect.TypeOf((*error)(nil)).Elem()
